@@ -46,15 +46,18 @@ Definition init_dead (n : nat) (a : dead_arg) : option (list bool) :=
   | DeadEach l => if (length l =? n)%nat then Some (map truthy l) else None
   end.
 
-(* np.asarray(range(n))[mask] for a BOOLEAN mask: the positions of True, increasing
-   (IndexError when the mask has another length than n: None) *)
+(* np.asarray(range(n))[mask] for a BOOLEAN mask: the positions of True, increasing.
+   numpy (rule established by experiment on numpy 2.5.3, as in Model/ProbeOps.v np_take)
+   accepts a mask of length n and ALSO the mask of length 0 on a vector of any length — an
+   empty boolean vector stored as probe.dead_elements after construction selects nothing:
+   no dead element; any other length is an IndexError: None. *)
 Fixpoint mask_positions (i : Z) (mask : list bool) : list Z :=
   match mask with
   | [] => []
   | b :: m => if b then i :: mask_positions (i + 1) m else mask_positions (i + 1) m
   end.
 Definition dead_indices (n : nat) (mask : list bool) : option (list Z) :=
-  if (length mask =? n)%nat then Some (mask_positions 0 mask) else None.
+  if ((length mask =? n) || (length mask =? 0))%nat then Some (mask_positions 0 mask) else None.
 
 (* what the same expression would return were the flags still INTEGERS (fancy indexing:
    arange(n)[ints] = the integers themselves, negative ones wrapped) — only used to show
